@@ -272,12 +272,35 @@ func c15(c *core.Ctx, r *core.Report) {
 					perFn[fn.Name()] = map[string]bool{}
 				}
 				perFn[fn.Name()][dst.Name()] = true
+				// inheritance fills a gap only: the store is guarded by "the stage's own value is nil" (in this frame or
+				// in the caller of a helper); a default that overrides a value the stage did set changes the plan
+				onlyWhenUnset := false
+				for _, g := range an.GuardsOfEvent(e) {
+					bo, isBin := g.Cond.(*ssa.BinOp)
+					if !isBin || (bo.Op != token.EQL && bo.Op != token.NEQ) {
+						continue
+					}
+					x, y := bo.X, bo.Y
+					if isNilConst(x) {
+						x, y = y, x
+					}
+					if !isNilConst(y) || (bo.Op == token.EQL) != g.Polarity {
+						continue
+					}
+					if fa, isFA := an.Strip(g.T(x)).(*ssa.FieldAddr); isFA && an.SameField(an.FieldOfAddr(fa), dst) {
+						onlyWhenUnset = true
+					}
+				}
+				if !onlyWhenUnset {
+					r.Violation(key+"#only-when-unset", an.Pos(c, in), "%s is overwritten with the default %s also when the stage sets it itself (the store is not guarded by %s == nil): an explicit value is silently replaced", dstD, srcD, dst.Name())
+					return
+				}
 				if src.Name() == dst.Name() {
-					r.OK(key, an.Pos(c, in), "%s ← %s", dstD, srcD)
+					r.OK(key, an.Pos(c, in), "%s ← %s, only when unset", dstD, srcD)
 					return
 				}
 				if dstD == "$c.Default.Concurrency" && srcD == "$c.Limits.Concurrency" {
-					r.OK(key, an.Pos(c, in), "frozen exception: the users default falls back to the global concurrency limit (documented)")
+					r.OK(key, an.Pos(c, in), "frozen exception: the users default falls back to the global concurrency limit (documented), only when unset")
 					return
 				}
 				r.Violation(key, an.Pos(c, in), "%s inherits %s: a stage that omits %s silently takes the default of a different option", dstD, srcD, dst.Name())
